@@ -172,6 +172,20 @@ func (g *termGen) mutate(t *gt, d int) *gt {
 	return gApp(t.s, args...)
 }
 
+func gtStripShare(t *gt) *gt {
+	if t.kind != "app" {
+		return t
+	}
+	if t.s == "$share" && len(t.args) == 2 {
+		return gtStripShare(t.args[1])
+	}
+	args := make([]*gt, len(t.args))
+	for i, a := range t.args {
+		args[i] = gtStripShare(a)
+	}
+	return gApp(t.s, args...)
+}
+
 const c02Recipes = "bdscauftp"
 
 func genC02Unify(r *rand.Rand, n int, tier string) []string {
@@ -188,7 +202,24 @@ func genC02Unify(r *rand.Rand, n int, tier string) []string {
 		if r.Intn(2) == 0 {
 			x, y = y, x
 		}
+		// one compound reached TWICE as the same object on one side, against two different counterparts
+		sharing := false
+		if x.kind == "app" && r.Intn(9) == 0 {
+			sharing = true
+			w := gApp("$share", gInt(1), x)
+			y1, y2 := g.mutate(x, 3), g.mutate(x, 3)
+			if r.Intn(3) == 0 {
+				y2 = y1
+			}
+			x, y = gApp("p", w, w), gApp("p", y1, y2)
+			if r.Intn(3) == 0 {
+				x, y = y, x
+			}
+		}
 		mode := pick(r, []string{"u", "u", "r", "o", "o", "f", "h", "h", "m", "k"})
+		if sharing && (mode == "h" || mode == "m" || mode == "k") {
+			mode = pick(r, []string{"u", "r", "o", "f"})
+		}
 		if mode == "m" {
 			// a SEQUENCE of unifications X1 = Y1, ..., Xn = Yn over a small pool of variables, so that
 			// variables already aliased are unified again, in both directions
@@ -241,7 +272,7 @@ func genC02Unify(r *rand.Rand, n int, tier string) []string {
 		if mode == "h" { // clause variables are renamed apart
 			cx = gtShift(x, 1000)
 		}
-		if classifyPair(cx, y) == "occurs" {
+		if classifyPair(gtStripShare(cx), gtStripShare(y)) == "occurs" {
 			mode = "o"
 		}
 		rec := func() string {
@@ -277,6 +308,9 @@ type builder struct {
 	// the variables they bind to the constructed lists
 	pre   *[]engine.Term
 	lvars *[]engine.Variable
+	// '$share'(K, T): every occurrence with the same K is THE SAME Go object (a variable bound to the
+	// term by an earlier goal of the query); the abstract term is T
+	shared map[int64]engine.Term
 }
 
 func (b *builder) variable(n int) engine.Variable {
@@ -323,6 +357,18 @@ func (b *builder) build(t *gt) engine.Term {
 		return engine.Integer(t.i)
 	case "flt":
 		return engine.Float(t.f)
+	}
+	if t.s == "$share" && len(t.args) == 2 && t.args[0].kind == "int" {
+		if b.shared == nil {
+			b.shared = map[int64]engine.Term{}
+		}
+		if v, ok := b.shared[t.args[0].i]; ok {
+			return v
+		}
+		v := engine.NewVariable()
+		*b.pre = append(*b.pre, compound("=", v, b.build(t.args[1])))
+		b.shared[t.args[0].i] = v
+		return v
 	}
 	if !(t.s == "." && len(t.args) == 2) {
 		args := make([]engine.Term, len(t.args))
